@@ -123,24 +123,39 @@ def limOf (limit : Option Nat) (tc : TC) (now : Nat) : Option Nat :=
 def globOf (limit : Option Nat) (tc : TC) (now : Nat) : Bool :=
   (effective tc.timeout (limit.map (· - (now + tc.wait)))).1
 
+/-- saturating arithmetic: what is left of the document limit after the capped wait is what is left
+    of it after the whole wait (`l - (now + min w (l - now)) = l - (now + w)`), so the cap moves the
+    clock but not the limit handed to the runner -/
+theorem sub_startOf (limit : Option Nat) (tc : TC) (now : Nat) :
+    limit.map (· - startOf limit tc now) = limit.map (· - (now + tc.wait)) := by
+  cases limit with
+  | none => rfl
+  | some l =>
+    simp only [Option.map, startOf, cappedWait]
+    congr 1
+    omega
+
 theorem execLoop_cons (limit : Option Nat) (runner : Runner) (tc : TC) (rest : List TC)
     (idx now : Nat) (acc : List Out) (limits : List (Option Nat)) :
     execLoop limit runner (tc :: rest) idx now acc limits =
       match ((runner idx (limOf limit tc now)).1).status with
       | .code c =>
         if c = skipCodeOf tc then (.skipped idx, limits ++ [limOf limit tc now])
-        else execLoop limit runner rest (idx + 1) (now + tc.wait + (runner idx (limOf limit tc now)).2)
+        else execLoop limit runner rest (idx + 1) (startOf limit tc now + (runner idx (limOf limit tc now)).2)
           (acc ++ [(runner idx (limOf limit tc now)).1]) (limits ++ [limOf limit tc now])
       | .timeout =>
         (.timeout (globOf limit tc now) idx (acc ++ [(runner idx (limOf limit tc now)).1]),
           limits ++ [limOf limit tc now])
       | .skipped => (.skipped idx, limits ++ [limOf limit tc now])
       | .detached =>
-        execLoop limit runner rest (idx + 1) (now + tc.wait + (runner idx (limOf limit tc now)).2)
+        execLoop limit runner rest (idx + 1) (startOf limit tc now + (runner idx (limOf limit tc now)).2)
           (acc ++ [detachedOut]) (limits ++ [limOf limit tc now])
       | .unknown =>
         (.ok (acc ++ [(runner idx (limOf limit tc now)).1] ++ rest.map unknownOut),
-          limits ++ [limOf limit tc now]) := rfl
+          limits ++ [limOf limit tc now]) := by
+  unfold limOf globOf
+  rw [← sub_startOf]
+  rfl
 
 /-- how the loop ended -/
 inductive Kind where
@@ -175,13 +190,13 @@ inductive Run (limit : Option Nat) (runner : Runner) :
   | code (tc : TC) (rest : List TC) (idx now : Nat) (c : Int) (news : List Out)
       (newl : List (Option Nat)) (k : Kind) :
       ((runner idx (limOf limit tc now)).1).status = .code c → c ≠ skipCodeOf tc →
-      Run limit runner rest (idx + 1) (now + tc.wait + (runner idx (limOf limit tc now)).2) news newl k →
+      Run limit runner rest (idx + 1) (startOf limit tc now + (runner idx (limOf limit tc now)).2) news newl k →
       Run limit runner (tc :: rest) idx now ((runner idx (limOf limit tc now)).1 :: news)
         (limOf limit tc now :: newl) k
   | detached (tc : TC) (rest : List TC) (idx now : Nat) (news : List Out)
       (newl : List (Option Nat)) (k : Kind) :
       ((runner idx (limOf limit tc now)).1).status = .detached →
-      Run limit runner rest (idx + 1) (now + tc.wait + (runner idx (limOf limit tc now)).2) news newl k →
+      Run limit runner rest (idx + 1) (startOf limit tc now + (runner idx (limOf limit tc now)).2) news newl k →
       Run limit runner (tc :: rest) idx now (detachedOut :: news) (limOf limit tc now :: newl) k
 
 theorem execLoop_run (limit : Option Nat) (runner : Runner) (tcs : List TC) :
@@ -201,7 +216,7 @@ theorem execLoop_run (limit : Option Nat) (runner : Runner) (tcs : List TC) :
       · subst hc
         exact ⟨[], [_], _, .skipCode tc rest idx now hs, by simp [build]⟩
       · obtain ⟨news, newl, k, hrun, heq⟩ :=
-          ih (idx + 1) (now + tc.wait + (runner idx (limOf limit tc now)).2)
+          ih (idx + 1) (startOf limit tc now + (runner idx (limOf limit tc now)).2)
             (acc ++ [(runner idx (limOf limit tc now)).1]) (limits ++ [limOf limit tc now])
         refine ⟨_, _, k, .code tc rest idx now c news newl k hs hc hrun, ?_⟩
         rw [if_neg hc, heq]
@@ -212,7 +227,7 @@ theorem execLoop_run (limit : Option Nat) (runner : Runner) (tcs : List TC) :
       exact ⟨[], [_], _, .skipped tc rest idx now hs, by simp [build]⟩
     · rename_i hs
       obtain ⟨news, newl, k, hrun, heq⟩ :=
-        ih (idx + 1) (now + tc.wait + (runner idx (limOf limit tc now)).2)
+        ih (idx + 1) (startOf limit tc now + (runner idx (limOf limit tc now)).2)
           (acc ++ [detachedOut]) (limits ++ [limOf limit tc now])
       refine ⟨_, _, k, .detached tc rest idx now news newl k hs hrun, ?_⟩
       rw [heq]
@@ -984,11 +999,11 @@ theorem wait_counts (limit : Option Nat) (runner : Runner) (tc : TC) (rest : Lis
     (execLoop limit runner (tc :: rest) idx now acc limits).2[limits.length]? = some eff.2 ∧
     (∀ c, r.1.status = .code c → c ≠ skipCodeOf tc →
       execLoop limit runner (tc :: rest) idx now acc limits =
-        execLoop limit runner rest (idx + 1) (now + tc.wait + r.2) (acc ++ [r.1])
+        execLoop limit runner rest (idx + 1) (startOf limit tc now + r.2) (acc ++ [r.1])
           (limits ++ [eff.2])) ∧
     (r.1.status = .detached →
       execLoop limit runner (tc :: rest) idx now acc limits =
-        execLoop limit runner rest (idx + 1) (now + tc.wait + r.2) (acc ++ [detachedOut])
+        execLoop limit runner rest (idx + 1) (startOf limit tc now + r.2) (acc ++ [detachedOut])
           (limits ++ [eff.2])) ∧
     (r.1.status = .timeout →
       execLoop limit runner (tc :: rest) idx now acc limits =
@@ -1053,6 +1068,19 @@ theorem honest_head_within (cmds : Nat → Nat × Out) (L : Nat) (tc : TC) (idx 
   have := (honest_completed cmds idx _ h).2 l hl
   omega
 
+/-- a command that an honest runner ran to its end had time left after its wait, so the wait was
+    sat out in full: the cap did not bite -/
+theorem honest_completed_start (limit : Option Nat) (cmds : Nat → Nat × Out) (tc : TC)
+    (idx now : Nat) (h : ((honest cmds idx (limOf limit tc now)).1).status ≠ .timeout) :
+    startOf limit tc now = now + tc.wait := by
+  cases limit with
+  | none => rfl
+  | some L =>
+    obtain ⟨l, hl, hle⟩ := limOf_le L tc now
+    have := (honest_completed cmds idx _ h).2 l hl
+    simp only [startOf, cappedWait]
+    omega
+
 section HonestRun
 variable {limit : Option Nat} {cmds : Nat → Nat × Out} {tcs : List TC} {idx now : Nat}
   {news : List Out} {newl : List (Option Nat)} {k : Kind}
@@ -1091,8 +1119,9 @@ theorem Run.honest_limits (h : Run limit (honest cmds) tcs idx now news newl k) 
     | succ d =>
       obtain ⟨tc', h1, h2⟩ := ih d lim (by simpa using hd)
       have hcomp := (honest_completed cmds idx (limOf limit tc now) (by rw [hs]; simp)).1
+      have hst := honest_completed_start limit cmds tc idx now (by rw [hs]; simp)
       refine ⟨tc', by simpa using h1, ?_⟩
-      rw [h2, hcomp]
+      rw [h2, hcomp, hst]
       simp only [List.take_succ_cons, busy]
       congr 1
       omega
@@ -1103,8 +1132,9 @@ theorem Run.honest_limits (h : Run limit (honest cmds) tcs idx now news newl k) 
     | succ d =>
       obtain ⟨tc', h1, h2⟩ := ih d lim (by simpa using hd)
       have hcomp := (honest_completed cmds idx (limOf limit tc now) (by rw [hs]; simp)).1
+      have hst := honest_completed_start limit cmds tc idx now (by rw [hs]; simp)
       refine ⟨tc', by simpa using h1, ?_⟩
-      rw [h2, hcomp]
+      rw [h2, hcomp, hst]
       simp only [List.take_succ_cons, busy]
       congr 1
       omega
@@ -1125,16 +1155,18 @@ theorem Run.honest_timeout_glob (h : Run limit (honest cmds) tcs idx now news ne
   | code tc rest idx now c _ _ _ hs _ _ ih =>
     obtain ⟨d, tc', h1, h2, h3⟩ := ih hk
     have hcomp := (honest_completed cmds idx (limOf limit tc now) (by rw [hs]; simp)).1
+    have hst := honest_completed_start limit cmds tc idx now (by rw [hs]; simp)
     refine ⟨d + 1, tc', by omega, by simpa using h2, ?_⟩
-    rw [h3, hcomp]
+    rw [h3, hcomp, hst]
     simp only [List.take_succ_cons, busy]
     congr 1
     omega
   | detached tc rest idx now _ _ _ hs _ ih =>
     obtain ⟨d, tc', h1, h2, h3⟩ := ih hk
     have hcomp := (honest_completed cmds idx (limOf limit tc now) (by rw [hs]; simp)).1
+    have hst := honest_completed_start limit cmds tc idx now (by rw [hs]; simp)
     refine ⟨d + 1, tc', by omega, by simpa using h2, ?_⟩
-    rw [h3, hcomp]
+    rw [h3, hcomp, hst]
     simp only [List.take_succ_cons, busy]
     congr 1
     omega
@@ -1179,6 +1211,7 @@ theorem Run.honest_within {L : Nat} (h : Run (some L) (honest cmds) tcs idx now 
     intro d hd hc
     have hhead := honest_head_within cmds L tc idx now (by rw [hs]; simp)
     have hcomp := (honest_completed cmds idx (limOf (some L) tc now) (by rw [hs]; simp)).1
+    have hst := honest_completed_start (some L) cmds tc idx now (by rw [hs]; simp)
     cases d with
     | zero =>
       simp only [List.take_succ_cons, List.take_zero, busy]
@@ -1188,13 +1221,14 @@ theorem Run.honest_within {L : Nat} (h : Run (some L) (honest cmds) tcs idx now 
         rcases hc with hc | hc
         · left; simpa using hc
         · right; exact hc)
-      rw [hcomp] at this
+      rw [hcomp, hst] at this
       simp only [List.take_succ_cons, busy]
       omega
   | detached tc rest idx now _ newl' _ hs _ ih =>
     intro d hd hc
     have hhead := honest_head_within cmds L tc idx now (by rw [hs]; simp)
     have hcomp := (honest_completed cmds idx (limOf (some L) tc now) (by rw [hs]; simp)).1
+    have hst := honest_completed_start (some L) cmds tc idx now (by rw [hs]; simp)
     cases d with
     | zero =>
       simp only [List.take_succ_cons, List.take_zero, busy]
@@ -1204,7 +1238,7 @@ theorem Run.honest_within {L : Nat} (h : Run (some L) (honest cmds) tcs idx now 
         rcases hc with hc | hc
         · left; simpa using hc
         · right; exact hc)
-      rw [hcomp] at this
+      rw [hcomp, hst] at this
       simp only [List.take_succ_cons, busy]
       omega
 
@@ -1321,7 +1355,9 @@ theorem execLoopOld_eq_of_no_wait (limit : Option Nat) (runner : Runner) (tcs : 
     intro idx now acc limits
     have hw : tc.wait = 0 := h tc (List.mem_cons_self ..)
     have ih' := ih (fun t ht => h t (List.mem_cons_of_mem _ ht))
-    simp only [execLoopOld, execLoop, hw, Nat.add_zero, ih']
+    have hs : startOf limit tc now = now := by
+      cases limit <;> simp [startOf, cappedWait, hw]
+    simp only [execLoopOld, execLoop, hs, hw, Nat.add_zero, ih']
     cases ((runner idx (effective tc.timeout (Option.map (fun x => x - now) limit)).snd).fst).status <;> rfl
 
 /-- the document of the bug report: limit 2 s; a 10 ms command, then a command that waits 1.5 s
@@ -1347,5 +1383,235 @@ theorem wait_overrun_old :
       (.timeout true 2 [⟨.code 0, true, true⟩, ⟨.code 0, true, true⟩, ⟨.timeout, false, false⟩],
         [some 2000, some 1990, some 0]) := by
   decide
+
+/-! ## The wait is sat out no longer than what is left of the document limit
+
+`startOf limit tc now` is the time at which the runner of `tc` is called. -/
+
+/-- closed form of the start time: the whole wait, but not past the document limit (a clock that
+    is already past the limit does not move) -/
+theorem startOf_spec (limit : Option Nat) (tc : TC) (now : Nat) :
+    startOf limit tc now =
+      (match limit with
+       | some l => min (now + tc.wait) (max now l)
+       | none => now + tc.wait) := by
+  cases limit with
+  | none => rfl
+  | some l =>
+    simp only [startOf, cappedWait]
+    omega
+
+theorem limOf_eq_start (limit : Option Nat) (tc : TC) (now : Nat) :
+    limOf limit tc now = (effective tc.timeout (limit.map (· - startOf limit tc now))).2 := by
+  rw [sub_startOf]
+  rfl
+
+/-- the document's clock: `(start, end)` of every runner call of the loop, in order -/
+def clockTrace (limit : Option Nat) (runner : Runner) : List TC → Nat → Nat → List (Nat × Nat)
+  | [], _, _ => []
+  | tc :: rest, idx, now =>
+    let s := startOf limit tc now
+    let r := runner idx (effective tc.timeout (limit.map (· - s))).2
+    match r.1.status with
+    | .code c =>
+      if c = skipCodeOf tc then [(s, s + r.2)]
+      else (s, s + r.2) :: clockTrace limit runner rest (idx + 1) (s + r.2)
+    | .detached => (s, s + r.2) :: clockTrace limit runner rest (idx + 1) (s + r.2)
+    | _ => [(s, s + r.2)]
+
+/-- the limit that belongs to a start time `s` of test case `tc` -/
+def limAt (limit : Option Nat) (tc : TC) (s : Nat) : Option Nat :=
+  (effective tc.timeout (limit.map (· - s))).2
+
+/-- `clockTrace` is the clock of `execLoop`: the loop calls the runner once per entry of the trace,
+    and the limit it hands over at the `d`-th call is the smaller of the per-test limit and what
+    is left of the document limit at the `d`-th start time -/
+theorem clockTrace_limits (limit : Option Nat) (runner : Runner) (tcs : List TC) :
+    ∀ (idx now : Nat) (acc : List Out) (limits : List (Option Nat)),
+      (execLoop limit runner tcs idx now acc limits).2 =
+        limits ++ (tcs.zip (clockTrace limit runner tcs idx now)).map
+          (fun p => limAt limit p.1 p.2.1) := by
+  induction tcs with
+  | nil => intros; simp [execLoop, clockTrace]
+  | cons tc rest ih =>
+    intro idx now acc limits
+    rw [execLoop_cons]
+    have hl := limOf_eq_start limit tc now
+    simp only [clockTrace, ← hl]
+    cases hs : ((runner idx (limOf limit tc now)).1).status with
+    | code c =>
+      by_cases hc : c = skipCodeOf tc
+      · simp [hc, limAt, ← hl]
+      · simp only [hc, if_false, ih, List.zip_cons_cons, List.map_cons, limAt, ← hl]
+        simp
+    | detached =>
+      simp only [ih, List.zip_cons_cons, List.map_cons, limAt, ← hl]
+      simp
+    | timeout => simp [limAt, ← hl]
+    | skipped => simp [limAt, ← hl]
+    | unknown => simp [limAt, ← hl]
+
+/-- a runner that is back by the time its limit is up -/
+def Punctual (runner : Runner) : Prop := ∀ i l, (runner i (some l)).2 ≤ l
+
+theorem honest_punctual (cmds : Nat → Nat × Out) : Punctual (honest cmds) := by
+  intro i l
+  rw [honest_eq]
+  by_cases h : l ≤ (cmds i).1
+  · simp [h]
+  · simp only [h, if_false]
+    omega
+
+/-- one step: under a document limit `L` that is not yet used up, the runner is started no later
+    than `L` and, if it is punctual, is back no later than `L` -/
+theorem step_within (L : Nat) (runner : Runner) (hp : Punctual runner) (tc : TC) (idx now : Nat)
+    (hn : now ≤ L) :
+    startOf (some L) tc now ≤ L ∧
+      startOf (some L) tc now +
+        (runner idx (effective tc.timeout ((some L).map (· - startOf (some L) tc now))).2).2 ≤ L := by
+  have hs : startOf (some L) tc now ≤ L := by
+    simp only [startOf, cappedWait]
+    omega
+  refine ⟨hs, ?_⟩
+  obtain ⟨l, hl, hle⟩ := limOf_le L tc now
+  rw [limOf_eq_start] at hl
+  rw [hl]
+  have := hp idx l
+  have h2 : L - (now + tc.wait) ≤ L - startOf (some L) tc now := by
+    simp only [startOf, cappedWait]
+    omega
+  omega
+
+/-- the document limit bounds the document's clock: with a punctual runner, no runner call starts
+    or ends after `L` -/
+theorem clockTrace_within (L : Nat) (runner : Runner) (hp : Punctual runner) (tcs : List TC) :
+    ∀ (idx now : Nat), now ≤ L →
+      ∀ se ∈ clockTrace (some L) runner tcs idx now, now ≤ se.1 ∧ se.1 ≤ se.2 ∧ se.2 ≤ L := by
+  induction tcs with
+  | nil => intro idx now _ se h; simp [clockTrace] at h
+  | cons tc rest ih =>
+    intro idx now hn se hse
+    obtain ⟨h1, h2⟩ := step_within L runner hp tc idx now hn
+    have h0 : now ≤ startOf (some L) tc now := Nat.le_add_right _ _
+    have head : ∀ se : Nat × Nat, se = (startOf (some L) tc now, startOf (some L) tc now +
+        (runner idx (effective tc.timeout ((some L).map (· - startOf (some L) tc now))).2).2) →
+        now ≤ se.1 ∧ se.1 ≤ se.2 ∧ se.2 ≤ L := by
+      rintro se rfl
+      exact ⟨h0, Nat.le_add_right _ _, h2⟩
+    have tail : ∀ se ∈ clockTrace (some L) runner rest (idx + 1) (startOf (some L) tc now +
+        (runner idx (effective tc.timeout ((some L).map (· - startOf (some L) tc now))).2).2),
+        now ≤ se.1 ∧ se.1 ≤ se.2 ∧ se.2 ≤ L := by
+      intro se hm
+      obtain ⟨a, b, c⟩ := ih (idx + 1) _ h2 se hm
+      exact ⟨by omega, b, c⟩
+    simp only [clockTrace] at hse
+    split at hse
+    · split at hse
+      · exact head se (by simpa using hse)
+      · rcases List.mem_cons.1 hse with h | h
+        · exact head se h
+        · exact tail se h
+    · rcases List.mem_cons.1 hse with h | h
+      · exact head se h
+      · exact tail se h
+    · exact head se (by simpa using hse)
+
+/-- start times along the trace, for ANY runner: each call is started at
+    `min (previous end + wait) (max (previous end) L)` — past `L` only if the clock was already past `L`
+    when the loop reached the test case, never because of a wait -/
+theorem clockTrace_head (limit : Option Nat) (runner : Runner) (tc : TC) (rest : List TC)
+    (idx now : Nat) :
+    ∃ e tl, clockTrace limit runner (tc :: rest) idx now = (startOf limit tc now, e) :: tl ∧
+      e = startOf limit tc now + (runner idx (limAt limit tc (startOf limit tc now))).2 ∧
+      (tl = [] ∨ tl = clockTrace limit runner rest (idx + 1) e) := by
+  simp only [clockTrace, limAt]
+  split
+  · split
+    · exact ⟨_, [], rfl, rfl, .inl rfl⟩
+    · exact ⟨_, _, rfl, rfl, .inr rfl⟩
+  · exact ⟨_, _, rfl, rfl, .inr rfl⟩
+  · exact ⟨_, [], rfl, rfl, .inl rfl⟩
+
+/-! ### The cap changes the time a document takes and nothing else -/
+
+/-- the loop with the wait sat out in full (as it was before the cap), for comparison only -/
+def execLoopUncapped (limit : Option Nat) (runner : Runner) :
+    (tcs : List TC) → (idx now : Nat) → (acc : List Out) → (limits : List (Option Nat)) →
+    ExecResult × List (Option Nat)
+  | [], _, _, acc, limits => (.ok acc, limits)
+  | tc :: rest, idx, now, acc, limits =>
+    let now := now + tc.wait
+    let remaining := limit.map (· - now)
+    let (isGlobal, lim) := effective tc.timeout remaining
+    let (o, elapsed) := runner idx lim
+    let limits := limits ++ [lim]
+    match o.status with
+    | .code c =>
+      if c = skipCodeOf tc then (.skipped idx, limits)
+      else execLoopUncapped limit runner rest (idx + 1) (now + elapsed) (acc ++ [o]) limits
+    | .timeout => (.timeout isGlobal idx (acc ++ [o]), limits)
+    | .skipped => (.skipped idx, limits)
+    | .detached =>
+      execLoopUncapped limit runner rest (idx + 1) (now + elapsed) (acc ++ [detachedOut]) limits
+    | .unknown => (.ok (acc ++ [o] ++ rest.map unknownOut), limits)
+
+/-- two clocks that agree, or that are both past the document limit -/
+def SameLeft (limit : Option Nat) (a b : Nat) : Prop :=
+  a = b ∨ ∃ L, limit = some L ∧ L ≤ a ∧ L ≤ b
+
+theorem execLoop_eq_uncapped_gen (limit : Option Nat) (runner : Runner) (tcs : List TC) :
+    ∀ (idx a b : Nat) (acc : List Out) (limits : List (Option Nat)), SameLeft limit a b →
+      execLoop limit runner tcs idx a acc limits =
+        execLoopUncapped limit runner tcs idx b acc limits := by
+  induction tcs with
+  | nil => intros; rfl
+  | cons tc rest ih =>
+    intro idx a b acc limits hab
+    have hl : limit.map (· - startOf limit tc a) = limit.map (· - (b + tc.wait)) := by
+      rw [sub_startOf]
+      rcases hab with rfl | ⟨L, rfl, h1, h2⟩
+      · rfl
+      · simp only [Option.map]
+        congr 1
+        omega
+    have hnext : ∀ e, SameLeft limit (startOf limit tc a + e) (b + tc.wait + e) := by
+      intro e
+      rcases hab with rfl | ⟨L, rfl, h1, h2⟩
+      · cases limit with
+        | none => exact .inl rfl
+        | some L =>
+          by_cases hw : tc.wait ≤ L - a
+          · left
+            simp only [startOf, cappedWait]
+            omega
+          · right
+            refine ⟨L, rfl, ?_, ?_⟩
+            · simp only [startOf, cappedWait]
+              omega
+            · omega
+      · right
+        refine ⟨L, rfl, ?_, ?_⟩
+        · simp only [startOf, cappedWait]
+          omega
+        · omega
+    simp only [execLoop, execLoopUncapped, hl]
+    cases ((runner idx (effective tc.timeout (Option.map (fun x => x - (b + tc.wait)) limit)).snd).fst).status with
+    | code c =>
+      by_cases hc : c = skipCodeOf tc
+      · simp [hc]
+      · simp only [hc, if_false]
+        exact ih _ _ _ _ _ (hnext _)
+    | detached => exact ih _ _ _ _ _ (hnext _)
+    | timeout => rfl
+    | skipped => rfl
+    | unknown => rfl
+
+/-- results, outputs, attribution of a timeout and every limit handed to the runner are the same
+    with and without the cap, for every runner: the cap only shortens the time that passes -/
+theorem execLoop_eq_uncapped (limit : Option Nat) (runner : Runner) (tcs : List TC)
+    (idx now : Nat) (acc : List Out) (limits : List (Option Nat)) :
+    execLoop limit runner tcs idx now acc limits =
+      execLoopUncapped limit runner tcs idx now acc limits :=
+  execLoop_eq_uncapped_gen limit runner tcs idx now now acc limits (.inl rfl)
 
 end Scrut.Exec
